@@ -1,5 +1,7 @@
 import BasicModel.Lemmas.Program
 import BasicModel.Lemmas.Execute
+import BasicModel.Lemmas.Inv
+import BasicModel.Thm.C03
 /-
   C04 — what runs is always the program that LIST shows.
 
@@ -351,6 +353,209 @@ example : (mid.listing.remove (some 20)).2 = false ∧ (mid.listing.remove (some
 /-- `Program.clear` keeps the cursor: the two compiles differ exactly there -/
 example : (Program.clear { link := { dataPos := 5 } }).link.dataPos = 5 := rfl
 example : editsListing .delete = true ∧ editsListing .print = false ∧ editsListing (.jump 3) = false := by decide
+
+/-! ### the invariant over ALL histories (DESIGN.md Appendix E, clause 4)
+
+  `Runtime.Inv` (Lemmas/Inv.lean): when `dirty = false`, `Program.base s.program` — the program in
+  memory linked and cut back to `directAddress`, i.e. the code below `directAddress`, the DATA
+  segment, the line symbols, `indirectErrors` and `directAddress` — is, up to the DATA cursor, the
+  image `freshBase s.listing` that compiling the current listing from scratch gives, and the
+  diagnostics LIST shows are those of that compile.  The direct segment, the direct-mode errors
+  and the DATA cursor are free.  It is stable under compiling a further direct line
+  (`Program.base_directGen`, which rests on `Codegen.fragments_negSyms`: the generator defines
+  local labels only, so no line symbol, no code below `directAddress` and — `Link.append` refuses
+  DATA in direct mode — no DATA item ever changes). -/
+
+/-- every API call of the session protocol preserves the invariant -/
+theorem inv_preserved (env : Env) (s : Runtime) (hi : Inv s) :
+    (∀ line, Inv (enter env s line)) ∧ (∀ n, Inv (execute env s n).1) ∧ Inv (interrupt s) ∧
+    (∀ l run, Inv (setListing env s l run)) :=
+  ⟨fun line => inv_enter env s line hi, fun n => inv_execute env s n hi, inv_interrupt s hi,
+   fun l run => inv_setListing env s l run hi⟩
+
+/-- the invariant spelled out field by field: when nothing has been edited since the last compile,
+    the program in memory, once linked (which compiling the next direct line starts with; for a
+    program that is linked already this adds at most an `End` above `directAddress`), agrees with
+    `Program.compile` of the current listing on `indirectErrors`, on `directAddress`, on the DATA
+    segment, on the symbol table (line symbols and the start-of-direct mark), and on the code below
+    `directAddress`; LIST shows the diagnostics of that compile -/
+theorem inv_spelled_out (s : Runtime) (hi : Inv s) (hd : s.dirty = false) :
+    s.program.linkProg.indirectErrors = (Program.compile s.listing.lines).indirectErrors ∧
+    s.program.linkProg.directAddress = (Program.compile s.listing.lines).directAddress ∧
+    s.program.linkProg.link.data = (Program.compile s.listing.lines).link.data ∧
+    s.program.linkProg.link.symbols = (Program.compile s.listing.lines).link.symbols ∧
+    s.program.linkProg.link.ops.extract 0 s.program.linkProg.directAddress =
+      (Program.compile s.listing.lines).link.ops.extract 0 (Program.compile s.listing.lines).directAddress ∧
+    s.listing.indirectErrors = (Program.compile s.listing.lines).indirectErrors := by
+  obtain ⟨⟨d, hb⟩, he⟩ := hi.compiled hd
+  have h1 : (Program.base s.program).indirectErrors = ((freshBase s.listing).withDP d).indirectErrors :=
+    congrArg Program.indirectErrors hb
+  have h2 : (Program.base s.program).directAddress = ((freshBase s.listing).withDP d).directAddress :=
+    congrArg Program.directAddress hb
+  have h3 : (Program.base s.program).link.data = ((freshBase s.listing).withDP d).link.data :=
+    congrArg (fun p => p.link.data) hb
+  have h4 : (Program.base s.program).link.symbols = ((freshBase s.listing).withDP d).link.symbols :=
+    congrArg (fun p => p.link.symbols) hb
+  have h5 : (Program.base s.program).link.ops = ((freshBase s.listing).withDP d).link.ops :=
+    congrArg (fun p => p.link.ops) hb
+  exact ⟨h1, h2, h3, h4, h5, he⟩
+
+/-- no instruction changes the compiled program except for the DATA cursor -/
+theorem step_program_code_frame (env : Env) (h : Bool) (s : Runtime) :
+    ∃ d, ((step env h).run.run s).2.program = s.program.withDP d :=
+  Runtime.step_program_code_frame env h s
+
+/-- … nor does a whole `execute`; and it changes the listing only with `dirty` set -/
+theorem execute_program_frame (env : Env) (s : Runtime) (n : Nat) :
+    (∃ d, (execute env s n).1.program = s.program.withDP d) ∧
+    (((execute env s n).1.listing = s.listing ∧ (execute env s n).1.dirty = s.dirty) ∨
+      (execute env s n).1.dirty = true) :=
+  ⟨(execute_keep env s n).prog, (execute_keep env s n).edit⟩
+
+/-- **`Inv` holds after any finite list of API calls from `Runtime::default()`** — whatever the
+    lexer, the RENUM rewriter and the entropy are, and whatever listings `set_listing` is given -/
+theorem inv_reachable (env : Env) (calls : List C03.Call) :
+    Inv (calls.foldl (C03.Call.apply env) ({} : Runtime)) := by
+  have key : ∀ (calls : List C03.Call) (s : Runtime), Inv s → Inv (calls.foldl (C03.Call.apply env) s) := by
+    intro calls
+    induction calls with
+    | nil => intro s h; exact h
+    | cons c cs ih =>
+      intro s h
+      apply ih
+      cases c with
+      | execute n => exact inv_execute env s n h
+      | enter line => exact inv_enter env s line h
+      | interrupt => exact inv_interrupt s h
+      | setListing l run => exact inv_setListing env s l run h
+  exact key calls _ inv_init
+
+/-- under the invariant — edited or not — the direct line runs the program a fresh interpreter
+    would compile from the current listing, up to the DATA cursor -/
+theorem enterDirect_program_eq_fresh_inv (s : Runtime) (line : Line) (hn : line.number = none) (hi : Inv s) :
+    ∃ d, (enterDirect s line).program = (freshProgram s.listing line).withDP d :=
+  enterDirect_program_inv s line hn hi
+
+/-- **`run_after_edit_eq_fresh` for ALL states**: for a state satisfying the invariant (no
+    hypothesis on `dirty`) and a direct line (`RUN`, `RUN n`, or any other), the state right after
+    RUN's CLEAR is the state a fresh interpreter holding the same listing reaches, except for the
+    prompt text, TRON, the print column and the dead `contPc` -/
+theorem run_eq_fresh (env : Env) (s : Runtime) (line : Line) (hn : line.number = none) (hi : Inv s) :
+    doClear env (enterDirect s line) =
+      { doClear env (enterDirect (fresh s.listing) line) with
+        prompt := s.prompt, tron := s.tron, printCol := s.printCol, contPc := s.contPc } := by
+  rw [run_state_eq_freshLike env s line hn hi, enterDirect_dirty (freshLike s) line rfl,
+    enterDirect_dirty (fresh s.listing) line rfl]
+  rfl
+
+/-- … in particular in every reachable state -/
+theorem run_eq_fresh_reachable (env : Env) (calls : List C03.Call) (line : Line) (hn : line.number = none) :
+    doClear env (enterDirect (calls.foldl (C03.Call.apply env) {}) line) =
+      { doClear env (enterDirect (fresh (calls.foldl (C03.Call.apply env) {}).listing) line) with
+        prompt := (calls.foldl (C03.Call.apply env) {}).prompt,
+        tron := (calls.foldl (C03.Call.apply env) {}).tron,
+        printCol := (calls.foldl (C03.Call.apply env) {}).printCol,
+        contPc := (calls.foldl (C03.Call.apply env) {}).contPc } :=
+  run_eq_fresh env _ line hn (inv_reachable env calls)
+
+/-- as an equality without exceptions: against the fresh interpreter that has been given the same
+    prompt, TRON setting, print column (and `contPc`) — `Runtime.freshLike` -/
+theorem run_eq_freshLike (env : Env) (s : Runtime) (line : Line) (hn : line.number = none) (hi : Inv s) :
+    doClear env (enterDirect s line) = doClear env (enterDirect (freshLike s) line) :=
+  run_state_eq_freshLike env s line hn hi
+
+/-- the events and the final state of a sequence of further API calls -/
+def session (env : Env) : List C03.Call → Runtime → List Event × Runtime
+  | [], s => ([], s)
+  | .execute n :: cs, s =>
+    let r := session env cs (execute env s n).1
+    ((execute env s n).2 :: r.1, r.2)
+  | c :: cs, s => session env cs (C03.Call.apply env s c)
+
+/-- hence, by determinism of the API: after RUN's CLEAR every further sequence of calls produces
+    the same events and ends in the same state as in the fresh interpreter -/
+theorem run_then_same_session (env : Env) (s : Runtime) (line : Line) (hn : line.number = none)
+    (hi : Inv s) (cs : List C03.Call) :
+    session env cs (doClear env (enterDirect s line)) =
+      session env cs (doClear env (enterDirect (freshLike s) line)) := by
+  rw [run_eq_freshLike env s line hn hi]
+
+/-! ### after an edit, a direct CONT / RETURN / NEXT / FN is refused -/
+
+/-- `enterDirect` leaves `cont`, `stack` and `functions` alone -/
+theorem enterDirect_keeps_resumables (s : Runtime) (line : Line) :
+    (enterDirect s line).cont = s.cont ∧ (enterDirect s line).stack = s.stack ∧
+    (enterDirect s line).functions = s.functions :=
+  ⟨(enterDirect_entry s line).2.2.2.2.2.2.2.1, (enterDirect_entry s line).2.2.2.2.2.1,
+   (enterDirect_entry s line).2.2.2.2.2.2.2.2⟩
+
+/-- a numbered line, then a direct line: the state in which the direct code starts has nothing
+    to resume … -/
+theorem edit_then_direct_nothing_resumable (s : Runtime) (numbered line : Line) :
+    (enterDirect (enterIndirect s numbered) line).cont = .stopped ∧
+    (enterDirect (enterIndirect s numbered) line).stack = #[] ∧
+    (enterDirect (enterIndirect s numbered) line).functions = [] := by
+  obtain ⟨h1, h2, h3⟩ := enterDirect_keeps_resumables (enterIndirect s numbered) line
+  obtain ⟨k1, k2, k3⟩ := enterIndirect_cancels s numbered
+  exact ⟨h1.trans k1, h2.trans k2, h3.trans k3⟩
+
+/-- … so (for any state `t` with `cont = stopped`, an empty stack and an empty DEF FN table, such
+    as the one above at any `pc`): CONT is CAN'T CONTINUE, RETURN is RETURN WITHOUT GOSUB, NEXT is
+    NEXT WITHOUT FOR, and a call `FNx(…)` — whatever arguments the direct line has pushed by then
+    (stack `st`) — is UNDEFINED USER FUNCTION -/
+theorem edit_then_resume_refused (t : Runtime) (hc : t.cont = .stopped) (hs : t.stack = #[])
+    (hf : t.functions = []) (name : Str) :
+    doCont.run.run t = (.error (Error.mk' Code.cantContinue), t) ∧
+    doReturn.run.run t = (.error (Error.mk' Code.returnWithoutGosub), t) ∧
+    (doNext name).run.run t = (.error (Error.mk' Code.nextWithoutFor), t) ∧
+    (∀ (st : Array Val) (v : Runtime) (args : List Val),
+      popVec.run.run { t with stack := st } = (.ok args, v) →
+      (doFn name).run.run { t with stack := st } = (.error (Error.mk' Code.undefinedUserFunction), v)) :=
+  ⟨doCont_refused t hc, doReturn_refused t hs, doNext_refused name t hs,
+   fun _ v args hv => doFn_refused name _ v args hf hv⟩
+
+/-- the four refusals for the state a direct line starts in after an edit -/
+theorem edit_then_resume_refused_enter (s : Runtime) (numbered line : Line) (name : Str) :
+    let t := enterDirect (enterIndirect s numbered) line
+    doCont.run.run t = (.error (Error.mk' Code.cantContinue), t) ∧
+    doReturn.run.run t = (.error (Error.mk' Code.returnWithoutGosub), t) ∧
+    (doNext name).run.run t = (.error (Error.mk' Code.nextWithoutFor), t) ∧
+    (∀ (st : Array Val) (v : Runtime) (args : List Val),
+      popVec.run.run { t with stack := st } = (.ok args, v) →
+      (doFn name).run.run { t with stack := st } = (.error (Error.mk' Code.undefinedUserFunction), v)) := by
+  intro t
+  obtain ⟨h1, h2, h3⟩ := edit_then_direct_nothing_resumable s numbered line
+  exact edit_then_resume_refused t h1 h2 h3 name
+
+/-! ### non-vacuity of the invariant theorems -/
+
+/-- a lexer that knows two lines -/
+def envR : Env :=
+  { lex := fun s => if s = "10 END".toList then ⟨some 10, [.word .end]⟩
+                    else if s = "RUN".toList then ⟨none, [.word .run]⟩ else ⟨none, []⟩,
+    lineRenum := fun _ l => l }
+
+/-- a concrete two-call history: type a line, RUN -/
+def hist2 : List C03.Call := [.enter "10 END".toList, .enter "RUN".toList]
+
+/-- after it the program is *not* marked stale, so `Inv`'s clause is not vacuous there … -/
+example : (hist2.foldl (C03.Call.apply envR) {}).dirty = false ∧
+    (hist2.foldl (C03.Call.apply envR) {}).listing.source = [(10, ⟨some 10, [.word .end]⟩)] ∧
+    (hist2.foldl (C03.Call.apply envR) {}).state = .running := by decide
+/-- … after the edit alone it is -/
+example : ([C03.Call.enter "10 END".toList].foldl (C03.Call.apply envR) {}).dirty = true := by decide
+example : Inv (hist2.foldl (C03.Call.apply envR) {}) := inv_reachable envR hist2
+/-- a second RUN in that (not dirty) state: covered by `run_eq_fresh`, not by `run_after_edit_eq_fresh` -/
+example : doClear envR (enterDirect (hist2.foldl (C03.Call.apply envR) {}) ⟨none, [.word .run]⟩) =
+    doClear envR (enterDirect (freshLike (hist2.foldl (C03.Call.apply envR) {})) ⟨none, [.word .run]⟩) :=
+  run_eq_freshLike envR _ _ rfl (inv_reachable envR hist2)
+/-- the initial state satisfies the invariant with `dirty = false` and an empty program -/
+example : Inv ({} : Runtime) ∧ ({} : Runtime).dirty = false := ⟨inv_init, rfl⟩
+/-- `mid` (stopped inside a subroutine, with a CONT point and a DEF FN), edited, then a direct line -/
+example : (enterDirect (enterIndirect mid line10) ⟨none, [.word .cont]⟩).cont = .stopped ∧
+    mid.cont = .running := ⟨(edit_then_direct_nothing_resumable mid line10 _).1, rfl⟩
+example : (doReturn.run.run { mid with stack := #[] }).1 = .error (Error.mk' Code.returnWithoutGosub) := by
+  rw [doReturn_refused _ rfl]
 
 end Thm.C04
 end Basic
